@@ -651,6 +651,72 @@ func formatsCase(c Case, dir string) string {
 
 // ---- C20 (conformance of the event model): the real `taskctl watch` on the real kernel + fsnotify ----
 
+// watchReal2Case: `taskctl watch <a> <b>` with two watchers over disjoint paths.
+func watchReal2Case(c Case, dir string) string {
+	logf := filepath.Join(dir, "events.log")
+	mkdirs(filepath.Join(dir, "a"), filepath.Join(dir, "b"))
+	os.WriteFile(filepath.Join(dir, "a", "one.txt"), []byte("0\n"), 0o644)
+	os.WriteFile(filepath.Join(dir, "b", "two.txt"), []byte("0\n"), 0o644)
+	y := fmt.Sprintf("tasks:\n  loga:\n    command: 'echo \"EV A $EventName $EventPath\" >> %[1]s'\n  logb:\n    command: 'echo \"EV B $EventName $EventPath\" >> %[1]s'\nwatchers:\n  w1:\n    watch: [\"a/*.txt\"]\n    events: [write]\n    task: loga\n  w2:\n    watch: [\"b/*.txt\"]\n    events: [write]\n    task: logb\n", logf)
+	os.WriteFile(filepath.Join(dir, "tasks.yaml"), []byte(y), 0o644)
+	cmd := exec.Command(os.Getenv("VERIF_TASKCTL"), append([]string{"watch"}, c.Args...)...)
+	cmd.Dir = dir
+	cmd.Env = []string{"HOME=" + filepath.Join(dir, "home"), "PATH=/usr/bin:/bin"}
+	var out strings.Builder
+	cmd.Stdout, cmd.Stderr = &out, &out
+	if err := cmd.Start(); err != nil {
+		return "infra: " + err.Error()
+	}
+	defer func() { cmd.Process.Kill(); cmd.Wait() }()
+	lines := func() []string {
+		b, _ := os.ReadFile(logf)
+		var ls []string
+		for _, l := range strings.Split(string(b), "\n") {
+			if strings.HasPrefix(l, "EV") {
+				ls = append(ls, strings.TrimSpace(strings.TrimPrefix(l, "EV")))
+			}
+		}
+		return ls
+	}
+	has := func(prefix string, d time.Duration) bool {
+		deadline := time.Now().Add(d)
+		for time.Now().Before(deadline) {
+			for _, l := range lines() {
+				if strings.HasPrefix(l, prefix) {
+					return true
+				}
+			}
+			time.Sleep(100 * time.Millisecond)
+		}
+		return false
+	}
+	if strings.Contains(out.String(), "too many open files") {
+		return "" // inotify instances exhausted by other activity: not judged
+	}
+	// each watcher runs its task once at start-up (empty event fields)
+	if !has("A", 20*time.Second) || !has("B", 20*time.Second) {
+		if strings.Contains(out.String(), "too many open files") {
+			return ""
+		}
+		return fmt.Sprintf("KIND:watch2-no-startup-run:with watchers %v on one command line not every watcher's task ran at start-up: %v; output: %s", c.Args, lines(), firstLines(out.String()))
+	}
+	time.Sleep(1500 * time.Millisecond)
+	os.WriteFile(filepath.Join(dir, "a", "one.txt"), []byte("1\n"), 0o644)
+	if !has("A write a/one.txt", 15*time.Second) {
+		return fmt.Sprintf("KIND:watch2-event-lost:a write to a/one.txt (observed by w1) did not run w1's task; log %v", lines())
+	}
+	os.WriteFile(filepath.Join(dir, "b", "two.txt"), []byte("1\n"), 0o644)
+	if !has("B write b/two.txt", 15*time.Second) {
+		return fmt.Sprintf("KIND:watch2-event-lost:a write to b/two.txt (observed by w2) did not run w2's task; log %v", lines())
+	}
+	for _, l := range lines() {
+		if strings.HasPrefix(l, "A write b/") || strings.HasPrefix(l, "B write a/") {
+			return fmt.Sprintf("KIND:watch2-wrong-watcher:an event on a path of one watcher ran the other watcher's task: %q", l)
+		}
+	}
+	return ""
+}
+
 func watchRealCase(c Case, dir string) string {
 	logf := filepath.Join(dir, "events.log")
 	for _, f := range []string{"watched.txt", "second.txt", "xcluded.txt", "other.md"} {
@@ -800,6 +866,8 @@ func runOne(c Case, root string) string {
 		return hooksCase(c, dir)
 	case "formats":
 		return formatsCase(c, dir)
+	case "watchreal2":
+		return watchReal2Case(c, dir)
 	case "watchreal":
 		return watchRealCase(c, dir)
 	}
@@ -1032,6 +1100,12 @@ func main() {
 		}
 		for _, sub := range subs {
 			if do(Case{Kind: "watchreal", Args: sub, K: k}) {
+				goto done
+			}
+		}
+		// several watchers named on one command line, in both orders: each observes its own paths and runs its own task
+		for _, order := range [][]string{{"w1", "w2"}, {"w2", "w1"}} {
+			if do(Case{Kind: "watchreal2", Args: order}) {
 				goto done
 			}
 		}
